@@ -6,6 +6,7 @@ import RichchkModel.Model.Editors
 import RichchkModel.Lemmas.StrGrow
 import RichchkModel.Lemmas.OrderFree
 import RichchkModel.Props.C07
+import RichchkModel.Props.C11
 import RichchkModel.Spec.Consts
 namespace Richchk.Props.C14
 open Richchk
@@ -776,5 +777,101 @@ theorem c04_new_cuwp_is_placed_and_referred_by_its_slot (cfg : RichCfg) (hr : cf
 constants are proved equal to in `Props/C09.lean` (`c09_generated_consts_eq_spec`) -/
 example : Spec.cuwpSlots.raiseWhenFull = true := by decide
 
+
+/-! ### what the triggers refer to, under two iteration orders -/
+
+/-- the batch of sets the unit-property rebuild asks slots for, under iteration order `o` -/
+def cuNeed (cfg : RichCfg) (secs : List RSection) (table : List RCuwp) (o : Option (List Nat)) : List RCuwp :=
+  (allocOrder o (dedupBy (fun a b => a.key == b.key)
+    ((secs.filter (fun s => !isSectionNamed nUPRP s)).flatMap (sectionCuwps cfg)))).filter
+      fun c => c.idx.isSome || !(table.any fun t => t.key == c.key)
+
+/-- **C14 for the references a save writes to unit-property sets** ("deterministic up to the numbering of new
+slots", at the level of what the triggers refer to).  Take one map and any two iteration orders `o1`, `o2` of the
+set of unit-property sets found in its triggers (each a permutation of the collected batch), and let both saves
+succeed.  Then
+* a reference to a STORED set (one the table holds at slot `i`) is written as `i` in both saves;
+* a reference to a NEW set (no index, values no stored slot holds) is written, in each save, as a slot that the
+  stored table does not occupy, and the emitted table of that save holds exactly that set there;
+* within one save two new sets with different values are never written as the same number.
+So the two outputs differ at most by a renaming of the new slots, applied consistently to the table and to every
+reference. -/
+theorem c14_unit_property_references_order_free (cfg : RichCfg) (hr : cfg.uprpCfg.raiseWhenFull = true)
+    (secs : List RSection) (table : List RCuwp)
+    (hsec : secs.filter (isSectionNamed nUPRP) = [.uprp table]) (hany : table.any (·.idx.isNone) = false)
+    (hnd : (table.filterMap (·.idx)).Nodup)
+    (o1 o2 : Option (List Nat))
+    (hp1 : (allocOrder o1 (dedupBy (fun a b : RCuwp => a.key == b.key) ((secs.filter (fun s => !isSectionNamed nUPRP s)).flatMap (sectionCuwps cfg)))).Perm
+      (dedupBy (fun a b : RCuwp => a.key == b.key) ((secs.filter (fun s => !isSectionNamed nUPRP s)).flatMap (sectionCuwps cfg))))
+    (hp2 : (allocOrder o2 (dedupBy (fun a b : RCuwp => a.key == b.key) ((secs.filter (fun s => !isSectionNamed nUPRP s)).flatMap (sectionCuwps cfg)))).Perm
+      (dedupBy (fun a b : RCuwp => a.key == b.key) ((secs.filter (fun s => !isSectionNamed nUPRP s)).flatMap (sectionCuwps cfg))))
+    (l1 l2 : List RCuwp) (h1 : rebuildUprp cfg secs o1 = .ok l1) (h2 : rebuildUprp cfg secs o2 = .ok l2)
+    (ctx1 ctx2 : EncCtx) (hc1 : ctx1.cuwps = l1) (hc2 : ctx2.cuwps = l2) :
+    (∀ c ∈ table, ∀ i, c.idx = some i → cuwpId ctx1 c = some i ∧ cuwpId ctx2 c = some i) ∧
+    (∀ c ∈ cuNeed cfg secs table o1, c.idx = none →
+      ∃ s1 s2, cuwpId ctx1 c = some s1 ∧ cuwpId ctx2 c = some s2 ∧
+        ({ c with idx := some s1 } : RCuwp) ∈ l1 ∧ ({ c with idx := some s2 } : RCuwp) ∈ l2 ∧
+        s1 ∉ table.filterMap (·.idx) ∧ s2 ∉ table.filterMap (·.idx)) ∧
+    (∀ c ∈ cuNeed cfg secs table o1, ∀ c' ∈ cuNeed cfg secs table o1, c.idx = none → c'.idx = none →
+      ∀ s, cuwpId ctx1 c = some s → cuwpId ctx1 c' = some s → c.key = c'.key) := by
+  have e1 := rebuildUprp_eq_core cfg secs table o1 hsec hany
+  have e2 := rebuildUprp_eq_core cfg secs table o2 hsec hany
+  have k1 := c04_need_keys_nodup ((secs.filter (fun s => !isSectionNamed nUPRP s)).flatMap (sectionCuwps cfg)) table o1 hp1
+  have k2 := c04_need_keys_nodup ((secs.filter (fun s => !isSectionNamed nUPRP s)).flatMap (sectionCuwps cfg)) table o2 hp2
+  have hcore1 : uprpCore cfg table (cuNeed cfg secs table o1) = .ok l1 := by rw [← h1, e1]; rfl
+  have hcore2 : uprpCore cfg table (cuNeed cfg secs table o2) = .ok l2 := by rw [← h2, e2]; rfl
+  have hN1 := Props.C11.c11_emitted_cuwp_slots_distinct h1 table (.inr hsec) hnd
+  have hN2 := Props.C11.c11_emitted_cuwp_slots_distinct h2 table (.inr hsec) hnd
+  have hpre1 : ∀ c ∈ table, c ∈ l1 := by
+    intro c hc
+    unfold uprpCore at hcore1
+    cases ha : allocate cfg.uprpCfg (table.filterMap (·.idx)) (cuReqsOf (cuNeed cfg secs table o1)) with
+    | error e => simp [ha] at hcore1
+    | ok p => simp only [ha, Except.ok.injEq] at hcore1; rw [← hcore1]; exact List.mem_append_left _ hc
+  have hpre2 : ∀ c ∈ table, c ∈ l2 := by
+    intro c hc
+    unfold uprpCore at hcore2
+    cases ha : allocate cfg.uprpCfg (table.filterMap (·.idx)) (cuReqsOf (cuNeed cfg secs table o2)) with
+    | error e => simp [ha] at hcore2
+    | ok p => simp only [ha, Except.ok.injEq] at hcore2; rw [← hcore2]; exact List.mem_append_left _ hc
+  -- a new set of order 1's batch is also in order 2's batch (the orders are permutations of one batch)
+  have hneed : ∀ c ∈ cuNeed cfg secs table o1, c ∈ cuNeed cfg secs table o2 := by
+    intro c hc
+    have := List.mem_filter.mp hc
+    exact List.mem_filter.mpr ⟨(hp2.symm.subset (hp1.subset this.1)), this.2⟩
+  -- the slot a new set is written as, in one save
+  have one : ∀ (o : Option (List Nat)) (l : List RCuwp) (ctx : EncCtx),
+      uprpCore cfg table (cuNeed cfg secs table o) = .ok l → ctx.cuwps = l →
+      ((cuPlacementOf (cuNeed cfg secs table o)).map (·.key)).Nodup → (l.filterMap (·.idx)).Nodup → (∀ c ∈ table, c ∈ l) →
+      ∀ c ∈ cuNeed cfg secs table o, c.idx = none →
+        ∃ s, cuwpId ctx c = some s ∧ ({ c with idx := some s } : RCuwp) ∈ l ∧ s ∉ table.filterMap (·.idx) := by
+    intro o l ctx hcore hctx hk hN hpre c hc hnone
+    have hcp : c ∈ cuPlacementOf (cuNeed cfg secs table o) := (cuPlacementOf_perm _).symm.subset hc
+    obtain ⟨k, hk', hget⟩ := List.getElem_of_mem hcp
+    have hnew := c04_need_indexless_is_new _ table c (by unfold cuNeed at hcp; exact hcp) hnone
+    obtain ⟨s, hs1, hs2⟩ := c04_new_cuwp_is_placed_and_referred_by_its_slot cfg hr table _ l hcore hk k hk'
+      (by rw [hget]; exact hnone) (by rw [hget]; exact hnew) ctx hctx
+    rw [hget] at hs1 hs2
+    refine ⟨s, hs1, hs2, ?_⟩
+    intro hmem
+    obtain ⟨t, ht, hti⟩ := List.mem_filterMap.mp hmem
+    have := Props.C11.eq_of_key_nodup (·.idx) l hN t (hpre t ht) _ hs2 s hti rfl
+    exact hnew t ht (by rw [this]; rfl)
+  refine ⟨?_, ?_, ?_⟩
+  · intro c hc i hi
+    exact ⟨Props.C11.c11_emitted_cuwp_reference_is_its_slot h1 table (.inr hsec) hnd ctx1 hc1 c (hpre1 c hc) i hi,
+           Props.C11.c11_emitted_cuwp_reference_is_its_slot h2 table (.inr hsec) hnd ctx2 hc2 c (hpre2 c hc) i hi⟩
+  · intro c hc hnone
+    obtain ⟨s1, a1, b1, c1⟩ := one o1 l1 ctx1 hcore1 hc1 k1 hN1 hpre1 c hc hnone
+    obtain ⟨s2, a2, b2, c2⟩ := one o2 l2 ctx2 hcore2 hc2 k2 hN2 hpre2 c (hneed c hc) hnone
+    exact ⟨s1, s2, a1, a2, b1, b2, c1, c2⟩
+  · intro c hc c' hc' hnone hnone' s hs hs'
+    obtain ⟨s1, a1, b1, _⟩ := one o1 l1 ctx1 hcore1 hc1 k1 hN1 hpre1 c hc hnone
+    obtain ⟨s2, a2, b2, _⟩ := one o1 l1 ctx1 hcore1 hc1 k1 hN1 hpre1 c' hc' hnone'
+    rw [hs] at a1; rw [hs'] at a2
+    cases a1; cases a2
+    have := Props.C11.eq_of_key_nodup (·.idx) l1 hN1 _ b1 _ b2 s rfl rfl
+    have hk := congrArg RCuwp.key this
+    simpa [RCuwp.key] using hk
 
 end Richchk.Props.C14
